@@ -25,6 +25,14 @@ class BuiltinMixin:
             raise Unsupported('builtin %s' % name)
         return m(args, kwargs, node)
 
+    def bi_next(self, args, kwargs, node):
+        hook = self.spec.callbacks.get('next')
+        if hook is not None:
+            r = hook(self, args)
+            if r is not None:
+                return r
+        raise Unsupported('next() of %s' % args[0].t)
+
     def bi_len(self, args, kwargs, node):
         v = args[0]
         if isinstance(v.t, TOpt):
@@ -41,7 +49,16 @@ class BuiltinMixin:
         if v.t is TNone:
             self.py_raise('TypeError')
         if isinstance(v.t, (TSet, TDict)):
-            raise Unsupported('len of set/dict')
+            if v.z is None:
+                return mk_int(0)      # an empty display
+            # cardinality of a set / of a dict's key set: an unspecified non-negative number that is 0 exactly for the
+            # empty one (all that code comparing len() with 0 needs; anything finer stays unproved, not wrong)
+            dom = v.z if isinstance(v.t, TSet) else v.t.dom(v.z)
+            empty = v.t.empty() if isinstance(v.t, TSet) else v.t.empty_dom()
+            card = z3.Function('card_' + str(abs(hash(dom.sort().name())) % 10 ** 8), dom.sort(), z3.IntSort())
+            n = card(dom)
+            self.assume(z3.And(n >= 0, (n == 0) == (dom == empty)))
+            return mk_int(n)
         return mk_int(py_len(v))
 
     def _minmax(self, args, is_min):
